@@ -612,12 +612,12 @@ theorem ru_monitorUpdate (s : EState) (sig : String) (v : Int) : ru (monitorUpda
   rw [ru_foldl]
   · rfl
   · intro s a
+    have e1 : ∀ (x : EState) (l : List (String × Bundler)), ru { x with bundlers := l } = ru x := fun _ _ => rfl
     split
     · rfl
-    · simp only []
-      split
-      · exact (show ru { (emitEvent s _ _ _).1 with bundlers := _ } = ru (emitEvent s _ _ _).1 from rfl).trans (ru_emitEvent _ _ _ _ _)
-      · exact (show ru { (emitEvent s _ _ _).1 with bundlers := _ } = ru (emitEvent s _ _ _).1 from rfl).trans (ru_emitEvent _ _ _ _ _)
+    · rename_i k b hb
+      rw [e1]
+      exact ru_emitEvent _ _ _ _ _
 
 theorem ext_applyAction (s : EState) (a : Action) : Ext s (applyAction s a) := by
   cases a with
@@ -690,5 +690,30 @@ theorem ext_schedule (maxArr : Nat) (sc : Script) (fuel : Nat) (s : EState) : Ex
               · exact (hq.trans (ext_releaseAll _)).trans (ext_applyAction _ _)
             · exact (hq.trans (ext_foldl _ ext_applyAction _ _)).trans (ih _)
         · exact hadv.trans (ih _)
+
+theorem ext_startResume (s : EState) : Ext s (startResume s) := by
+  unfold startResume
+  simp only []
+  have h0 := ru_rewindPlan (forBundlers { s with interrupted := false } fun s b => recordInterruption s b "resume")
+  rw [ru_forBundlers_ri] at h0
+  generalize rewindPlan (forBundlers { s with interrupted := false } fun s b => recordInterruption s b "resume") = p at h0
+  obtain ⟨rw, s1⟩ := p
+  simp only [] at h0 ⊢
+  have g1 : Ext s s1 := ext_of_ru (h0.trans rfl)
+  refine g1.trans (Ext.trans ?_ ((ext_of_ru (ru_resumeHooks _)).trans (ext_same rfl rfl)))
+  exact ext_same rfl rfl
+
+theorem ext_startTerminate (s : EState) (kind : String) : Ext s (startTerminate s kind) := by
+  unfold startTerminate
+  exact (ext_requestTerminate s kind "").trans (ext_same rfl rfl)
+
+/-- the invariant behind "RE(...) returns the uids of the runs it opened": the runs of the RunStart documents
+    emitted since the call began are exactly `_run_start_uids` -/
+def UidsInv (pre : List Nat) (s : EState) : Prop := startsOf s.docs = pre ++ s.runStartUids
+
+theorem Ext.uidsInv {pre : List Nat} {s s' : EState} (h : Ext s s') (hi : UidsInv pre s) : UidsInv pre s' := by
+  obtain ⟨l, a, b⟩ := h
+  unfold UidsInv at *
+  rw [b, a, hi, List.append_assoc]
 
 end BlueskyVerif.Engine
